@@ -36,3 +36,9 @@ package transport
 //gvc:  sink SetReference requires name: strid(ref.n) == strid(cmd.Name) && ref.h == cmd.New
 //gvc:  sink RemoveReference requires cas: st.#refs[strid(cmd.Name)] != 0 && forall(k, 0, 32, field(st.#refs[strid(cmd.Name)], "plumbing.Reference.h").hash[k] == cmd.Old.hash[k])
 //gvc:end
+
+//gvc:func currentValueIs
+//gvc:  props C39
+//gvc:  theory int
+//gvc:  ensures same: result ==> s.#refs[strid(n)] != 0 && forall(k, 0, 32, field(s.#refs[strid(n)], "plumbing.Reference.h").hash[k] == old.hash[k])
+//gvc:end
